@@ -150,12 +150,14 @@ def source_tie(rundir, wanted):
     tie_txt = open(tie_src).read()
     names = re.findall(r"^Theorem\s+(\w+)", tie_txt, flags=re.M)
     bad = [l.strip()[:100] for l in re.sub(r"\(\*.*?\*\)", "", tie_txt, flags=re.S).split("\n") if FORBIDDEN.search(l)]
+    terrs = {}
     try:
-        gen = srcgen.generate(REPO)
+        gen = srcgen.generate(REPO, terrs)
     except Exception as e:
         return dict(ok=False, failed=["translator"], log="lib/srcgen.py could not translate /repo's sources: %s" % e, theorems=names, assumptions=[], gen_sha=None)
+    gen += "".join("(* NOT TRANSLATED: %s: %s *)\n" % (k, v.replace("*)", "* )")[:400]) for k, v in sorted(terrs.items()))
     h = hashlib.sha256(gen.encode() + tie_txt.encode())
-    for v in ("Base_Bytes.v", "Spec_SHA.v", "Spec_Base64.v", "Spec_Base32.v", "Spec_Base36.v", "Model_Sha1Transform.v", "Model_Sha2Ctx.v"):
+    for v in ("Base_Bytes.v", "Spec_SHA.v", "Spec_Base64.v", "Spec_Base32.v", "Spec_Base36.v", "Model_Sha1Transform.v", "Model_Sha2Ctx.v", "Model_Otp.v", "Base_Result.v"):
         h.update(open(os.path.join(COQ, v), "rb").read())
     cdir = os.path.join(CACHE, "tie"); os.makedirs(cdir, exist_ok=True)
     cfile = os.path.join(cdir, h.hexdigest()[:24] + ".json")
@@ -175,26 +177,31 @@ def source_tie(rundir, wanted):
             shutil.copy(tie_src, os.path.join(d, "Tie_Source.v"))
             rc, out = sh(["timeout", "300", "coqc", "-Q", COQ, "HV", "-Q", d, "GEN", os.path.join(d, "Tie_Source.v")], cwd=d, timeout=330)
             if rc != 0:
-                # find which statements fail: abort the proof the error is in, compile again (dependents of an aborted statement fail in turn and are listed too)
+                # find which statements fail: remove the item (Theorem / Lemma / Definition) the error is in, compile again; dependents of a removed item
+                # fail in turn and are listed too
                 cur = tie_txt
-                for _ in range(40):
+                for _ in range(60):
                     m = re.search(r"line (\d+), characters", out)
                     if not m: break
                     upto = "\n".join(cur.split("\n")[:int(m.group(1))])
-                    heads = list(re.finditer(r"^(?:Theorem|Lemma)\s+(\w+)", upto, flags=re.M))
+                    heads = list(re.finditer(r"^(Theorem|Lemma|Definition)\s+(\w+)", upto, flags=re.M))
                     if not heads: break
-                    hd = heads[-1]; nm = hd.group(1)
+                    hd = heads[-1]; nm = hd.group(2)
                     if nm in failed: break
                     failed.append(nm)
-                    pstart = cur.index("Proof.", hd.start()); pend = cur.index("Qed.", pstart) + 4
-                    cur = cur[:pstart] + "Proof. Abort." + cur[pend:]
+                    if hd.group(1) == "Definition":
+                        pend = re.search(r"\.\s*$", cur[hd.start():], flags=re.M).end() + hd.start()
+                    else:
+                        pend = cur.index("Qed.", hd.start()) + 4
+                    cur = cur[:hd.start()] + "(* removed: %s *)" % nm + cur[pend:]
                     cur = re.sub(r"Print Assumptions %s\.[ ]?" % nm, "", cur)
                     open(os.path.join(d, "Tie_Source.v"), "w").write(cur)
                     rc2, out = sh(["timeout", "300", "coqc", "-Q", COQ, "HV", "-Q", d, "GEN", os.path.join(d, "Tie_Source.v")], cwd=d, timeout=330)
                     if rc2 == 0: break
                 if not failed: failed = ["Tie_Source"]
         ass = re.findall(r"^(Closed under the global context|Axioms:.*)$", out, flags=re.M)
-        res = dict(failed=failed, log=out[-1500:], assumptions=ass, gen_sha=hashlib.sha256(gen.encode()).hexdigest()[:16])
+        if terrs: out = "translator: " + "; ".join("%s: %s" % kv for kv in sorted(terrs.items()))[:1200] + "\n" + out
+        res = dict(failed=failed, log=out[-1500:] if not terrs else out[:1500], assumptions=ass, gen_sha=hashlib.sha256(gen.encode()).hexdigest()[:16])
         json.dump(res, open(cfile + ".tmp", "w")); os.replace(cfile + ".tmp", cfile)
         for old in sorted(glob.glob(os.path.join(cdir, "*.json")), key=os.path.getmtime)[:-6]: os.remove(old)
     rel = [f for f in res["failed"] if f in wanted or f in ("translator", "Tie_Source")]
